@@ -92,6 +92,26 @@ Theorem C07_header_code : forall ref, (ref < 65536)%N ->
     N.of_nat (length (snd (concat_ie ref 7 3))) = dl.
 Proof. exact header_code_is_model. Qed.
 
+(* the DATA octets of the element: for every reference (total 7, sequence 3) the element Set() writes has the model's id,
+   length and big-endian data value (hence every octet); and at the references 0, 255, 256, 65535 for EVERY (total,
+   sequence) pair *)
+Theorem C07_header_data : forall ref, (ref < 65536)%N ->
+  exists lo hi id dl v0, In (lo, hi, id, dl, v0) wd_header_data_runs /\ (lo <= ref <= hi)%N /\
+    fst (concat_ie ref 7 3) = id /\ N.of_nat (length (snd (concat_ie ref 7 3))) = dl /\
+    be_val (snd (concat_ie ref 7 3)) = (v0 + 65536 * (ref - lo))%N.
+Proof. exact header_data_is_model. Qed.
+Theorem C07_header_total_seq : forall ref total seq, In ref [0; 255; 256; 65535]%N -> (total < 256)%N -> (seq < 256)%N ->
+  exists id dl v0, In (ref, 0, 65535, id, dl, v0)%N wd_header_ts_runs /\
+    fst (concat_ie ref total seq) = id /\ N.of_nat (length (snd (concat_ie ref total seq))) = dl /\
+    be_val (snd (concat_ie ref total seq)) = (v0 + (256 * total + seq))%N.
+Proof. exact header_ts_is_model. Qed.
+
+(* exact widths: single-octet charsets, UCS-2 (BMP and supplementary planes) and EUC-JP are charged exactly 8 bits per
+   octet emitted, for every accepted scalar value - for them "could have held one more character" is in octets *)
+Theorem C07_width_exact : width_exact wd_ascii /\ width_exact wd_latin1 /\ width_exact wd_cyrillic /\ width_exact wd_hebrew /\
+  width_exact wd_ucs2 /\ width_exact wd_eucjp.
+Proof. exact width_exact_all. Qed.
+
 (* ---- width_sound: the splitter never charges an accepted character less than the encoder emits,
         per coding, on the tables regenerated from the running code (the obligation D12 broke) ---- *)
 Theorem C07_width_sound :
